@@ -422,6 +422,7 @@ impl Entry for TreeEntry {
 #[derive(Debug)]
 pub struct WalkTree {
     is_dir: bool,
+    is_empty: bool,
     pivot: usize,
     input: walkdir::IntoIter,
 }
@@ -451,8 +452,16 @@ impl WalkTree {
             },
             DepthBehavior::Unbounded => builder,
         };
+        // The root of the traversal is at the depth of the pivot. If that exceeds the maximum
+        // depth, then no file is within bounds (and the traversal cannot express this).
+        let is_empty = match depth {
+            DepthBehavior::Max(max) => max.0 < pivot,
+            DepthBehavior::MinMax(minmax) => minmax.max().get() < pivot,
+            _ => false,
+        };
         WalkTree {
             is_dir: false,
+            is_empty,
             pivot,
             input: builder.into_iter(),
         }
@@ -474,6 +483,9 @@ impl Iterator for WalkTree {
     type Item = Result<TreeEntry, WalkError>;
 
     fn next(&mut self) -> Option<Self::Item> {
+        if self.is_empty {
+            return None;
+        }
         let (is_dir, next) = match self.input.next() {
             Some(result) => match result {
                 Ok(entry) => (
